@@ -28,7 +28,7 @@ type vMetaEnv struct {
 	calls   int
 	rows    []*pb.Result        // table listing (lookupAllRegions): all rows, in one response
 	mkRows  func() []*pb.Result // ... built afresh for every request (the scanner consumes the slice it is given)
-	fails   int          // the first so many scans of hbase:meta fail
+	fails   int                 // the first so many scans of hbase:meta fail
 	failed  int
 }
 
